@@ -83,3 +83,17 @@ Theorem C05_reset_access_minmax_is_code : forall rows,
             (G.gen_reset_min_init, G.gen_reset_max_init) = (min_time rows, max_time rows).
 Proof. exact reset_access_minmax_tie. Qed.
 Print Assumptions C05_reset_access_minmax_is_code.
+
+(* tie to the source, stage 3d: the top-level flow of calculateSingle / calculateSingleReverse (calculator.cpp) - the call of reset(), the test that selects
+   the forward pass, the hand-over to the reverse pass (arrival time, re-seeded reverse labels), the arrival-time path
+   (departure time cleared, every trip usable), the result that is returned - and the NoRoutingReason each callee throws
+   are read from the sources AS THEY ARE NOW by tools/gen_loops.py (gen/Flow.v) and executed by the interpreter of Flow.v;
+   the model computes the same.  reset() enters as Proofs/ResetTie.v shows it to be *)
+Require Import TrV.Flow.
+From TrV Require Import Proofs.FlowTie.
+Theorem C05_calculate_single_flow_is_code : forall d cs p acc egr fresh m0,
+  run_single GF.gen_calculate_single
+    {| ce_d := d; ce_p := p; ce_reasons := GF.gen_flow_reasons; ce_reset := reset_single d cs p acc egr fresh; ce_egrfp := egr |} m0
+  = calc_single d cs p acc egr fresh.
+Proof. exact calculate_single_tie. Qed.
+Print Assumptions C05_calculate_single_flow_is_code.
